@@ -19,6 +19,9 @@ CanonOf(vs) == [i \in 1..Len(vs) |-> vs[i].c]
 
 RowClosingOps == {"end_row", "write_row", "finish", "finish_one", "finish_error", "drop"}
 
+\* a refused write_col that the shim handles instead of propagating it with `?` ("cont" in the scenario)
+Handled(x) == x.res = "err" /\ x.op.op = "write_col" /\ "cont" \in DOMAIN x.op /\ x.op.cont
+
 RECURSIVE Den(_, _, _, _, _, _)
 \* walk: i-th op; cur row-writer state; units so far; viol so far; isBin; at = trace position
 \* returns [units, viol, allok]
@@ -30,7 +33,11 @@ Den(prog, i, cur, units, viol, ctx) ==
       name == o.op
       nc == Len(cur.cols)
   IN
-  IF res # "ok" THEN
+  IF Handled(prog[i]) THEN
+     \* a refused write_col that the shim handles (it carries on with the same row writer): the call
+     \* must have left nothing behind, so the program means what it means without it
+     Den(prog, i + 1, cur, units, viol, ctx)
+  ELSE IF res # "ok" THEN
      \* the program stops at the first refused call; a panic is never a conformant refusal
      [units |-> units,
       viol |-> viol \cup (IF res = "panic" THEN {V(IF name \in {"write_col", "write_row"} /\ ctx.bin THEN "C07" ELSE "C03", ctx.at, "writer call panicked: " \o name)} ELSE {})]
@@ -71,7 +78,7 @@ Den(prog, i, cur, units, viol, ctx) ==
      Den(prog, i + 1, cur, units, viol, ctx)
 
 Denote(prog, bin, at) == Den(prog, 1, NoCur, << >>, {}, [bin |-> bin, at |-> at])
-ProgAllOk(prog) == \A i \in 1..Len(prog) : prog[i].res = "ok"
+ProgAllOk(prog) == \A i \in 1..Len(prog) : prog[i].res = "ok" \/ Handled(prog[i])
 \* "after a resultset was started": did the program produce any unit at all
 ProgStarted(prog) == \E i \in 1..Len(prog) : prog[i].op.op \in {"start", "complete_one", "completed", "error", "perror", "init_ok", "init_err", "reply"}
 
